@@ -69,10 +69,16 @@ AggTypes ==
      TyD("lst_p", "aggr", <<>>, <<>>, AggF("LIST", 1, 3, "REAL", FALSE, FALSE)),
      TyD("set_p", "aggr", <<>>, <<>>, AggF("SET", 2, 5, "STRING", FALSE, FALSE)),
      TyD("bag_p", "aggr", <<>>, <<>>, AggF("BAG", 1, -1, "cnt", FALSE, FALSE)) >>
+(* two selects that contain each other through named aggregate types (legal: the recursion passes through a LIST)   *)
+SelAggTypes ==
+  << TyD("la", "aggr", <<>>, <<>>, AggF("LIST", 0, -1, "sb", FALSE, FALSE)), TyD("lb", "aggr", <<>>, <<>>, AggF("LIST", 0, -1, "sa", FALSE, FALSE)),
+     TyD("sa", "select", <<>>, <<"la", "lab">>, T("")), TyD("sb", "select", <<>>, <<"lb", "cnt">>, T("")) >>
 ExtraTypes(ts) == CASE ts.k = "base" -> <<>> [] ts.k = "aggs" -> AggTypes [] ts.k = "chain" -> ChainTypes(ts.of, ts.names)
+                    [] ts.k = "selagg" -> SelAggTypes
 ExtraAttrs(ts) ==
   CASE ts.k = "base" -> <<>>
     [] ts.k = "chain" -> <<A("x1", T(ts.names[3]), FALSE), A("x2", T(ts.names[2]), TRUE)>>
+    [] ts.k = "selagg" -> <<A("x1", T("sa"), TRUE)>>
     [] ts.k = "aggs" -> <<A("y1", AggF("ARRAY", 1, 3, "lab", TRUE, TRUE), FALSE), A("y2", AggF("LIST", 0, -1, "e1", TRUE, FALSE), FALSE),
                           A("y3", AggF("SET", 0, -1, "colour", FALSE, FALSE), TRUE), A("y4", AggF("BAG", 0, 2, "INTEGER", FALSE, FALSE), FALSE),
                           A("y5", T("arr_ou"), TRUE), A("y6", AggF("ARRAY", 0, 1, "REAL", TRUE, FALSE), FALSE),
@@ -132,7 +138,7 @@ Valid0(c) ==
    aux |-> c.aux,
    \* aux3: the second schema has the names the first one takes from it only through its own full USE of a third
    aux3 |-> "chain3" \in DOMAIN c]
-TypeShapes(deep) == {[k |-> "aggs"]} \cup {[k |-> "chain", of |-> o, names |-> p] : o \in {"simple", "enum", "select", "enumsel"},
+TypeShapes(deep) == {[k |-> "aggs"], [k |-> "selagg"]} \cup {[k |-> "chain", of |-> o, names |-> p] : o \in {"simple", "enum", "select", "enumsel"},
                                                    p \in (IF deep THEN Perm3 ELSE {<<"m1", "m2", "m3">>, <<"m3", "m1", "m2">>, <<"m2", "m3", "m1">>})}
 (* identifiers that are keywords or well-known names of the target languages (C++, Python) or of Part 21 but     *)
 (* ordinary identifiers of EXPRESS (choice field nm; applied to a schema without expression texts)                *)
@@ -223,6 +229,10 @@ Mutants(c) ==
   \cup (IF c.aux THEN {[M(cl[1], 0, cl[2], cl[3]) EXCEPT !.pos = "in_used_schema"] :
                           cl \in {<<"undef_type", "nosuch_t", "UNDEFINED_TYPE">>, <<"undef_supertype", "nosuch_e", "UNKNOWN_SUPERTYPE">>,
                                   <<"select_cycle", "", "SELECT_LOOP">>}} ELSE {})
+  \* INCLUDE of a file that does not exist, once and more often than the scanner has buffers
+  \cup {[M("include_missing", 0, "nosuch_file.exp", "INCLUDE_FILE") EXCEPT !.pos = p] : p \in {"once", "forty"}}
+  \* a name taken from a schema that has it neither itself nor through the schemas it USEs, which USE each other in a circle
+  \cup {[M("undef_use_item", 0, "nosuch_e", "REF_NONEXISTENT") EXCEPT !.pos = "circular_use"]}
   \* defined types that rename each other in a circle (two, three, one): there is no underlying type
   \cup {[M("type_cycle", 0, "", "CIRCULAR_REFERENCE") EXCEPT !.pos = p] : p \in {"two", "three", "self", "two_used"}}
   \cup {M("select_cycle", 0, "", "SELECT_LOOP")}
